@@ -10,9 +10,8 @@ Definition is_loop k := match k with KLoop => true | _ => false end.
 Section K.
 Variable flags_at : nat -> flags.
 Definition has_sa i := negb (is_nil (f_sa (flags_at i))).
-Definition has_bx i := negb (is_nil (f_bx (flags_at i))).
 
-(* classes: 15 = D15, 16 = D16, 17 = D17, 99 = semantic-after on a branch to a loop label (outside C20) *)
+(* classes: 16 = D16, 17 = D17, 99 = semantic-after on a branch to a loop label (outside C20) *)
 Definition branch_classes (ctx : list ckind) (targets : list nat) : list N :=
   let all_same := match targets with [] => true | t :: ts => forallb (Nat.eqb t) ts end in
   (if all_same then [] else [17%N]) ++
@@ -36,9 +35,7 @@ Fixpoint classes (fuel : nat) (ctx : list ckind) (is : list instr) : list N :=
       | IPlain _ _ => []
       | IBlock _ _ _ b => classes fuel' (KBlock :: ctx) b
       | ILoop _ _ _ b => classes fuel' (KLoop :: ctx) b
-      | IIf i _ _ _ t e =>
-          (if has_bx i && existsb blocklike t then [15%N] else [])
-          ++ classes fuel' (KIf :: ctx) t ++ classes fuel' (KIf :: ctx) e
+      | IIf _ _ _ _ t e => classes fuel' (KIf :: ctx) t ++ classes fuel' (KIf :: ctx) e
       end) is
   end.
 
@@ -93,5 +90,5 @@ Definition verdict_all (ks : list N) (c : scase) : Util.verdict :=
 Definition report_C16 := run_report verdict16.
 Definition report_C17 := run_report (verdict_all []).
 Definition report_C18 := run_report (verdict_all []).
-Definition report_C19 := run_report (verdict_all [15%N]).
+Definition report_C19 := run_report (verdict_all []).
 Definition report_C20 := run_report (verdict_all [16%N; 17%N; 18%N]).
